@@ -164,6 +164,19 @@ def rule_ICDF(ctx):
                    'not use the first unit coordinate')
 
 
+def _tuple_aliases(f):
+    """{name: (tuple variable, index)} for `lower, upper = dist` unpackings in `f`."""
+    out = {}
+    for st in walk_no_nested(f.node):
+        if isinstance(st, ast.Assign) and len(st.targets) == 1 and \
+                isinstance(st.targets[0], (ast.Tuple, ast.List)) and \
+                isinstance(st.value, ast.Name) and \
+                all(isinstance(t, ast.Name) for t in st.targets[0].elts):
+            for k, t in enumerate(st.targets[0].elts):
+                out[t.id] = (st.value.id, k)
+    return out
+
+
 def rule_RANGE(ctx):
     rid = 'D3'
     ctx.rule(rid, 'declared range: a tuple (low, high) becomes the uniform distribution on '
@@ -172,6 +185,7 @@ def rule_RANGE(ctx):
     from ..gaps import linear, _Unknown
     from fractions import Fraction
     f = ctx.program.func('Prior.add_parameter')
+    alias = _tuple_aliases(f)
     n = 0
     for st in walk_no_nested(f.node):
         if not (isinstance(st, ast.Assign) and isinstance(st.value, ast.Call) and
@@ -187,6 +201,8 @@ def rule_RANGE(ctx):
             if isinstance(e, ast.Subscript) and isinstance(e.value, ast.Name) and \
                     isinstance(e.slice, ast.Constant) and e.slice.value in (0, 1):
                 return 'lo' if e.slice.value == 0 else 'hi'
+            if isinstance(e, ast.Name) and e.id in alias and alias[e.id][1] in (0, 1):
+                return 'lo' if alias[e.id][1] == 0 else 'hi'
             return None
         try:
             fl = linear(loc, sym, {}) if loc is not None else {}
@@ -237,7 +253,8 @@ def rule_TUPLE(ctx):
     conv = convs[0]
     dname = conv.ast.targets[0].id if isinstance(conv.ast.targets[0], ast.Name) else 'dist'
     # what is known when the conversion runs: the facts of its guards (polarity-normalised)
-    len_ok = order_ok = False
+    len_ok = order_ok = nan_gap = False
+    alias_t = _tuple_aliases(f)
     for atom, text, truth in cfg.facts(conv.id):
         if not (isinstance(atom, ast.Compare) and len(atom.ops) == 1):
             continue
@@ -257,15 +274,21 @@ def rule_TUPLE(ctx):
             if isinstance(e, ast.Subscript) and isinstance(e.value, ast.Name) and \
                     e.value.id == dname and isinstance(e.slice, ast.Constant):
                 return e.slice.value
+            if isinstance(e, ast.Name) and e.id in alias_t and alias_t[e.id][0] == dname:
+                return alias_t[e.id][1]
             return None
         a_, b_ = idx(l_), idx(r_)
         if {a_, b_} == {0, 1}:
             # normalise to a statement about dist[0] ? dist[1]
             if a_ == 1:
                 op = {ast.Lt: ast.Gt, ast.Gt: ast.Lt, ast.LtE: ast.GtE, ast.GtE: ast.LtE}.get(op, op)
-            # known: dist[0] < dist[1]   <=>  (Lt, True) or (GtE, False)
-            if (op is ast.Lt and truth is True) or (op is ast.GtE and truth is False):
+            # known TRUE: dist[0] < dist[1].  `not (dist[0] >= dist[1])` is not enough: it also
+            # holds when a bound is NaN, and (nan, 1) then becomes a parameter that is NaN for
+            # every input
+            if op is ast.Lt and truth is True:
                 order_ok = True
+            elif op is ast.GtE and truth is False:
+                nan_gap = True
     ctx.ob(rid, 'Prior.add_parameter:tuple-length-checked', len_ok, f.where(conv.ast),
            'a tuple with other than two entries is rejected before the conversion' if len_ok else
            'a tuple declaration is converted with `%s` without its length being checked: '
@@ -273,6 +296,9 @@ def rule_TUPLE(ctx):
            % unparse(conv.ast)[:50])
     ctx.ob(rid, 'Prior.add_parameter:tuple-order-checked', order_ok, f.where(conv.ast),
            'a range whose upper bound does not exceed the lower one is rejected' if order_ok else
+           ('the range is rejected when `low >= high`, which is false for a NaN bound too: '
+            '(nan, 1.0) is accepted and the parameter is NaN for every input; test '
+            '`not low < high`') if nan_gap else
            'the bounds of a range are not compared: (1, 0) and (2, 2) are accepted and every '
            'value of that parameter is NaN')
     # output buffer of unit_to_physical: every definition of the returned array
@@ -369,6 +395,35 @@ def rule_FIXED(ctx):
                    'IndexError instead of returning the constants'
                    % (unparse(st)[:60], unparse(cols[0])))
     ctx.require(n >= 1, 'D5: fixed-number branch of the dictionary transform not found')
+
+
+def rule_COMPOSE(ctx):
+    rid = 'D6'
+    ctx.rule(rid, 'unit_to_dictionary is the composition physical_to_dictionary(unit_to_physical(u)) '
+             'of the very array it was given: the argument reaches unit_to_physical unchanged (no '
+             'clipping, rounding or rebinding in between), so the dictionary holds the inverse CDF '
+             'at the unit coordinate itself, faces and corners included')
+    f = ctx.program.func('Prior.unit_to_dictionary')
+    pts = [p for p in f.params if p != f.self_name]
+    ctx.require(pts, 'Prior.unit_to_dictionary has no point parameter')
+    pt = pts[0]
+    inner = [c for c in walk_no_nested(f.node) if isinstance(c, ast.Call) and
+             dotted(c.func) == '%s.unit_to_physical' % f.self_name]
+    ctx.require(inner, 'Prior.unit_to_dictionary no longer calls unit_to_physical')
+    rebind = [st for st in walk_no_nested(f.node) if isinstance(st, (ast.Assign, ast.AugAssign))
+              and any(isinstance(t, ast.Name) and t.id == pt or
+                      isinstance(t, ast.Subscript) and isinstance(t.value, ast.Name) and
+                      t.value.id == pt
+                      for t in (st.targets if isinstance(st, ast.Assign) else [st.target]))]
+    direct = all(c.args and isinstance(c.args[0], ast.Name) and c.args[0].id == pt for c in inner)
+    ok = direct and not rebind
+    bad = rebind[0] if rebind else inner[0]
+    ctx.ob(rid, 'Prior.unit_to_dictionary:argument-unchanged', ok, f.where(bad),
+           'the unit-cube points reach unit_to_physical as given' if ok else
+           '`%s`: the points are changed before the inverse CDF is applied - a coordinate on a '
+           'face of the cube (0, 1, or within an ulp of them) no longer maps to the quantile of '
+           'that coordinate, and unit_to_dictionary(u) differs from '
+           'physical_to_dictionary(unit_to_physical(u))' % unparse(bad)[:60])
 
 
 def rule_PAIR(ctx):
@@ -549,6 +604,7 @@ def run(ctx):
     rule_RANGE(ctx)
     rule_TUPLE(ctx)
     rule_FIXED(ctx)
+    rule_COMPOSE(ctx)
     rule_A1(ctx)
     ctx.floor('T1', 3, 'rejection exits')
     ctx.floor('T7', 1, 'appends to the key list')
